@@ -168,7 +168,11 @@ func c01RefChunked(b []byte, i int) (body []byte, end int, ok bool) {
 // server dispatches must be what the reference framing yields; a body the
 // reference calls malformed is never followed by another request.
 func vhC01ChunkedBody() {
-	const head = "POST /first HTTP/1.1\r\nHost: a\r\nTransfer-Encoding: chunked\r\n\r\n"
+	head := "POST /first HTTP/1.1\r\nHost: a\r\nTransfer-Encoding: chunked\r\n\r\n"
+	if vBool("expect100") {
+		// the client announces the body with Expect and sends it without waiting
+		head = "POST /first HTTP/1.1\r\nHost: a\r\nExpect: 100-continue\r\nTransfer-Encoding: chunked\r\n\r\n"
+	}
 	const second = "GET /second HTTP/1.1\r\nHost: a\r\nConnection: close\r\n\r\n"
 	h1, h2, h3 := []byte("3\r\n"), []byte("\r\n"), []byte("\r\n")
 	hl := vParam("holeLen", 3)
@@ -181,6 +185,19 @@ func vhC01ChunkedBody() {
 		h3 = append(c05Sym("afterLastSize", hl), "\r\n"...)
 	}
 	msg := head + string(h1) + "abc" + string(h2) + "0" + string(h3) + "\r\n"
+	if vBool("sixteenDigitSize") {
+		// a first chunk whose data is a lone CR, then a chunk-size line of 16 hex
+		// digits (one more than the parser's word holds safely; the first one
+		// arbitrary), then bytes that would spell the end of the body and the
+		// next request if that size were taken for something small
+		d := vBytes("firstDigit", 1)
+		vAssume(refHexVal(d[0]) >= 0)
+		rest := "FFFFFFFFFFFFFFF"
+		if vBool("restZero") {
+			rest = "000000000000000"
+		}
+		msg = head + "1\r\n\r\r\n" + string(d) + rest + "\r\n" + "\n0\r\n\r\n"
+	}
 	stream := []byte(msg + second)
 	c := &vsSegConn{}
 	if vBool("oneSegment") {
@@ -219,6 +236,10 @@ func vhC01ChunkedBody() {
 	}
 	if !refOK {
 		vAssert("malformed-chunked-body-ends-the-connection", len(uris) == 0)
+	}
+	if refOK && refEnd == len(msg) && len(uris) > 0 {
+		// nothing of the stream may get lost between the two messages
+		vAssert("the-request-after-a-well-formed-body-is-served", len(uris) == 2)
 	}
 	vAssert("connection-closed-at-end", c.closed == 1)
 }
